@@ -66,7 +66,7 @@ def run(ctx):
             if not f:
                 continue
             if h == "from_none":
-                rs = [e for _, e in ctx.ret_exprs(f)]
+                rs = ctx.ret_values(f)
                 if none_kind == "some-none":
                     ctx.ob("C12.G.absent-option-is-none", f.key, "return", rs == ["core::option::Option::Some{core::option::Option::None{}}"], "returns %s" % rs)
                 elif none_kind == "forward":
@@ -76,7 +76,7 @@ def run(ctx):
                     ctx.ob("C12.F.absent-forwards", f.key, "T::from_none().map(ctor)", rs == [want] and len(calls) == 1, "returns %s" % rs)
                 continue
             if w.endswith("Override<T>") and h == "from_word":
-                rs = [e for _, e in ctx.ret_exprs(f)]
+                rs = ctx.ret_values(f)
                 ctx.ob("C12.G.override-word-is-inherit", f.key, "return", rs == ["core::result::Result::Ok{darling_core::util::over_ride::Override::Inherit{}}"], "returns %s" % rs)
                 continue
             calls = fwd_calls(ctx, f, h, inner)
@@ -90,7 +90,7 @@ def run(ctx):
             ctx.ob("C12.F.forwards-same-hook-same-node", f.key, "%s -> <%s>::%s" % (h, inner, h), ok, detail)
             # every return is built from the forwarded call
             fw = "%s::%s(a1)" % (FM, h)
-            rs = [e for _, e in ctx.ret_exprs(f)]
+            rs = ctx.ret_values(f)
             okr = bool(rs) and all(fw in e for e in rs)
             ctx.ob("C12.F.returns-forwarded-result", f.key, "return provenance", okr, "returns %s" % [e[:140] for e in rs])
             # unconditional: the forwarded call dominates every return
@@ -140,7 +140,7 @@ def run(ctx):
             ctx.ob("C12.E.spanned-value-span-per-form", f.key, "value span of the node itself", ok, "SpannedValue::new(value, node.span())")
     f = ctx.fn("<darling_core::util::flag::Flag as %s>::from_none" % FM)
     if f:
-        rs = [e for _, e in ctx.ret_exprs(f)]
+        rs = ctx.ret_values(f)
         ctx.ob("C12.G.absent-flag-not-present", f.key, "return", rs == ["core::option::Option::Some{darling_core::util::flag::Flag::Flag{core::option::Option::None{}}}"], "returns %s" % rs)
     # wrappers that stay required when absent do not override from_none
     for w in ("darling_core::util::spanned_value::SpannedValue<T>", "darling_core::util::with_original::WithOriginal<T, syn::attr::Meta>", "darling_core::util::over_ride::Override<T>"):
